@@ -81,6 +81,21 @@ def alignment_states(g, var: str, pads):
   return state
 
 
+def _require_stream_idiom(f, g, pads):
+  """The rules below decide the 'measured stream' idiom (serialise, pad the
+  byte stream in a loop, record len(stream) as offset, append, pad). Another
+  way of computing offsets (e.g. arithmetic on sizes) is not recognised: that
+  is a loud 'cannot decide', not a violation."""
+  streams = [st for st in f.node.body if isinstance(st, ast.Assign) and isinstance(st.value, ast.Call)
+             and common.call_name(st.value).endswith('convert_object_to_bytearray') and isinstance(st.targets[0], ast.Name)]
+  offs = [n for n in g.nodes if n.kind == 'stmt' and isinstance(n.ast, ast.Assign) and isinstance(n.ast.targets[0], ast.Attribute) and n.ast.targets[0].attr == 'offset'
+          and isinstance(n.ast.value, ast.Call) and common.call_name(n.ast.value) == 'len']
+  if len(streams) != 2 or not pads or not offs:
+    raise index.AnalysisError(
+        f'{f.fq}: offsets are no longer computed with the measured-stream idiom (two serialisations, `while len(stream) % 16` padding, '
+        '`buffer.offset = len(stream)`); alignment and pass agreement cannot be decided statically for this rewrite')
+
+
 def r1_alignment(ctx):
   R = 'C16.R1'
   ctx.rule(R, 'every buffer offset is recorded while the byte stream is 16-byte aligned; size = length of the constant appended there', floor=1)
@@ -88,6 +103,7 @@ def r1_alignment(ctx):
   ctx.instance(R)
   g = cfgmod.build(f.node)
   pads = _pad_loops(g)
+  _require_stream_idiom(f, g, pads)
   ctx.check(R, len(pads) >= 4, f.node, f, f'{len(pads)} padding loops', 'expected padding loops after both serialisations and after each appended constant in both passes')
   for h, (x, m, _) in pads.items():
     try:
@@ -159,6 +175,7 @@ def r2_pass_agreement(ctx):
   ctx.rule(R, 'the emitting pass appends exactly the byte sequence the offset-computing pass measured', floor=1)
   f = ctx.repo.func(f'{MM}._serialize_large_model')
   ctx.instance(R)
+  _require_stream_idiom(f, cfgmod.build(f.node), _pad_loops(cfgmod.build(f.node)))
   loops = [n for n in f.node.body if isinstance(n, ast.For)]
   accs = {}
   for st in f.node.body:
